@@ -106,7 +106,7 @@ def run_job(cpath, job, outdir, tier='quick'):
             if re.search(r'\b' + re.escape(r) + r'\(', ctext): cmd += ['--replace-call-with-contract', r]   # callees absent from this unit are skipped
         if job.get('loops', '1') != '0': cmd += ['--apply-loop-contracts']
         cmd += [gb1, gb2]
-        rc, out, dt = sh(cmd, 600, log); res['cmds'].append(' '.join(cmd)); res['seconds'] += dt
+        rc, out, dt = sh(cmd, 1800, log, mem_kb=(int(job['mem']) * 1024 * 1024 if job.get('mem') else None)); res['cmds'].append(' '.join(cmd)); res['seconds'] += dt
         if rc != 0:
             res['status'] = 'error'; res['detail'] = 'goto-instrument failed: ' + out[-2500:]; return res
         final = gb2
